@@ -86,6 +86,63 @@ def format_specs(prog):
 
 
 def insertion_points(prog):
+    """Offsets at which print_pqr inserts a blank in --whitespace mode: print_pqr is evaluated on model lines made of distinct
+    non-blank characters (whatever way the re-spacing is written); if that is not possible the syntactic extraction is used."""
+    try:
+        return insertion_points_model(prog)
+    except AnalysisError:
+        return insertion_points_syntactic(prog)
+
+
+def insertion_points_model(prog):
+    from ..guards import Flow, Obj
+    from ..objinterp import ObjRunner
+    fn = prog.func("main.py", "print_pqr").node
+    chars = "".join(chr(c) for c in range(0x41, 0x41 + 26)) + "".join(chr(c) for c in range(0x61, 0x61 + 26)) + "0123456789!#$%&()*+,-./:;<=>?@[]^_{|}~"
+    results = []
+    for rec in ("ATOM  ", "HETATM"):
+        line = rec + chars[: 80 - len(rec)] + "\n"
+        written = []
+
+        def extra(runner, interp, call, args, kw, written=written):
+            if U(call.func) == "open":
+                return Obj({"__class__": "FileModel"})
+            if isinstance(call.func, ast.Attribute) and call.func.attr == "write":
+                recv = interp.ev(call.func.value)
+                if isinstance(recv, dict) and recv.get("__class__") == "FileModel":
+                    written.append(args[0])
+                    return None
+            return NotImplemented
+
+        run = ObjRunner(prog, "main.py", extra_hook=extra)
+        argsm = Obj({"__class__": "Namespace", "whitespace": True, "output_pqr": "model.pqr"})
+        try:
+            run.call_function("main.py", "print_pqr", argsm, [line], [], [], False)
+        except Flow as fl:
+            raise AnalysisError(f"print_pqr stops with {fl.value} on the model line") from None
+        out = "".join(str(x) for x in written)
+        cuts, problems = [], []
+        i = j = 0
+        while i < len(line) and j < len(out):
+            if out[j] == line[i]:
+                i += 1
+                j += 1
+            elif out[j] == " ":
+                cuts.append(i)
+                j += 1
+            else:
+                problems.append(f"character {line[i]!r} at column {i} is lost or replaced (output has {out[j]!r})")
+                break
+        if not problems and (i < len(line) or j < len(out)):
+            problems.append(f"the re-spaced record ends after {j} characters; {len(line) - i} characters of the line are dropped" if i < len(line)
+                            else f"{len(out) - j} extra characters are written after the record")
+        results.append((cuts, problems))
+    if results[0][0] != results[1][0]:
+        results[0][1].append(f"ATOM and HETATM records are re-spaced differently: {results[0][0]} vs {results[1][0]}")
+    return fn, results[0][0], results[0][1] + results[1][1]
+
+
+def insertion_points_syntactic(prog):
     """Offsets at which print_pqr inserts a blank in --whitespace mode.
 
     Recognised shapes: a chain `line[a:b] + " " + line[b:c] + ...`, or `" ".join(line[i:j] for i, j in zip(starts, ends))`
